@@ -89,7 +89,7 @@ var c06 = Register("C06", "C06.text", func(a c06Args) *Violation {
 		}
 		// round trip keeps the class (and the sign of an infinity)
 		p, perr := d128.Parse(s)
-		var u, sc d128.Decimal
+		u, sc := prior(hashWords(a.V.Hi, a.V.Lo, 1)), prior(hashWords(a.V.Hi, a.V.Lo, 2))
 		uerr := u.UnmarshalText(mt)
 		_, serr := fmt.Sscan(s, &sc)
 		for _, r := range []struct {
@@ -152,7 +152,7 @@ var c06 = Register("C06", "C06.text", func(a c06Args) *Violation {
 	withDefaultMode(mode, func() {
 		for _, txt := range texts {
 			p, perr := d128.Parse(txt)
-			var u, sc d128.Decimal
+			u, sc := prior(hashString(txt)+1), prior(hashString(txt)+2)
 			uerr := u.UnmarshalText([]byte(txt))
 			_, serr := fmt.Sscan(txt, &sc)
 			for _, r := range []struct {
